@@ -52,4 +52,24 @@ example : (step [] (run [] Registry.empty [.addUnitBase (.str 1) 10 (.str 2)])
     = .ok (.cat ⟨6, 1, none, 2, 0, some 0, none, false, false, titleCaption 6⟩) := by decide +kernel
 example : findUnitCase (run [] Registry.empty sampleHistory) 5 3 = .ok 3 := by decide +kernel
 
+/-- contradictory limits with a ZERO on either side are rejected with `ValueError` (min 0 / max -5, min 5 / max 0),
+also when they would replace a good category; consistent limits with a zero-valued bound are accepted and the
+default is derived from the zero-valued minimum -/
+example : (step [] (run [] Registry.empty [.addUnitBase (.str 1) 10 (.str 2)])
+    (.addCategory ⟨.str 6, some 1, none, false, none, none, some 0, some (-5), false, false, 0, none⟩)).2 = .error .value := by
+  decide +kernel
+example : (step [] (run [] Registry.empty [.addUnitBase (.str 1) 10 (.str 2)])
+    (.addCategory ⟨.str 6, some 1, none, true, none, none, some 5, some 0, false, false, 0, none⟩)).2 = .error .value := by
+  decide +kernel
+example : (step [] (run [] Registry.empty [.addUnitBase (.str 1) 10 (.str 2)])
+    (.addCategory ⟨.str 6, some 1, none, false, none, none, some 0, some 10, false, false, 7, none⟩)).2
+    = .ok (.cat ⟨6, 1, none, 2, 0, some 0, some 10, false, false, 7⟩) := by decide +kernel
+/-- a default just outside a zero-valued bound is an `AssertionError` -/
+example : (step [] (run [] Registry.empty [.addUnitBase (.str 1) 10 (.str 2)])
+    (.addCategory ⟨.str 6, some 1, none, false, none, some (-1/2), some 0, some 10, false, false, 7, none⟩)).2
+    = .error .assertion := by decide +kernel
+example : (step [] (run [] Registry.empty [.addUnitBase (.str 1) 10 (.str 2)])
+    (.addCategory ⟨.str 6, some 1, none, false, none, some 0, some 0, none, true, false, 7, none⟩)).2
+    = .error .assertion := by decide +kernel
+
 end Barril.Reg
